@@ -72,6 +72,15 @@ def construct(key):
 
 
 def build_via(key, via):
+    if via in ("ctor-arr", "ctor-arr5"):
+        # function types whose argument is given as an ARRAY ctype: it decays to the pointer type,
+        # so the result must be the canonical type with the pointer argument
+        import _cffi_backend as B
+        i, c = B.new_primitive_type("int"), B.new_primitive_type("char")
+        if key == "int(*)(int*)":
+            arr = B.new_array_type(B.new_pointer_type(i), None if via == "ctor-arr" else 5)
+            return B.new_function_type((arr,), i, False)
+        return construct(key)
     if via == "ctor":
         return construct(key)
     if via == "inline":
@@ -99,6 +108,9 @@ class Sys(object):
             for k in self.keys_alpha:
                 for via in ("ctor", "inline", "compiled"):
                     ops.append(("build", k, via))
+                if k == "int(*)(int*)":
+                    ops.append(("build", k, "ctor-arr"))
+                    ops.append(("build", k, "ctor-arr5"))
         for i in range(NSLOT):
             if self.mkeys[i] is None:
                 continue
@@ -172,12 +184,14 @@ class Sys(object):
                     return {"kind": "distinct-objects-for-one-type" if same_key else "one-object-for-two-types",
                             "keys": [live[a][2], live[b][2]]}
         for i, obj, key in live:
-            for via in ("ctor", "compiled"):
+            for via in ("ctor", "compiled", "ctor-arr"):
                 again = build_via(key, via)
                 if again is not obj:
                     return {"kind": "rebuild-of-live-type-is-another-object", "key": key, "via": via}
                 del again
-            if obj.cname.replace(" ", "") != key.replace(" ", ""):
+            # (the printed name of a function type keeps the spelling of the arguments it was first built
+            #  with -- 'int(*)(int[])' -- which the statement does not speak about: not compared there)
+            if key != "int(*)(int*)" and obj.cname.replace(" ", "") != key.replace(" ", ""):
                 return {"kind": "wrong-type-built", "key": key, "cname": obj.cname}
         return None
 
@@ -204,7 +218,7 @@ class Sys(object):
 
 def run(ctx):
     _gc.disable()
-    small = ["int*", "int**", "int[]", "int(*)(int)"]
+    small = ["int*", "int**", "int[]", "int(*)(int*)"]
     allk = [k for k, _ in TYPES]
     if ctx.quick:
         plan = [(allk, 2, 2), (small, 4, 2)]
